@@ -4,4 +4,4 @@ go 1.15
 
 require github.com/willabides/rjson v0.0.0
 
-replace github.com/willabides/rjson => /tmp/mut
+replace github.com/willabides/rjson => /repo
